@@ -502,11 +502,21 @@ func (f *Frame) callContract(callee *ssa.Function, con *Contract, args []Val, pc
 			}
 			pcond := vc.define("panics "+name, "Bool", or(conds...))
 			pv := vc.freshConst("panicval", "Iface")
+			for _, c := range con.PanicsWith {
+				env.vars["panicvalue"] = Val{T: pv, Typ: types.NewInterfaceType(nil, nil)}
+				vc.assert(env.evalBool(c.E))
+				delete(env.vars, "panicvalue")
+			}
 			f.exits = append(f.exits, Exit{Panic: true, Cond: and(pc, pcond), St: st.clone(), PanicVal: Val{T: pv, Typ: types.NewInterfaceType(nil, nil)}, Pos: posOf(ins, f), Desc: "panic propagated from " + name})
 			npc = vc.define("pc nopanic", "Bool", and(pc, not(pcond)))
 		} else if !con.NoPanic {
 			mp := vc.freshConst("maypanic "+name, "Bool")
 			pv := vc.freshConst("panicval", "Iface")
+			for _, c := range con.PanicsWith {
+				env.vars["panicvalue"] = Val{T: pv, Typ: types.NewInterfaceType(nil, nil)}
+				vc.assert(env.evalBool(c.E))
+				delete(env.vars, "panicvalue")
+			}
 			f.exits = append(f.exits, Exit{Panic: true, Cond: and(pc, mp), St: st.clone(), PanicVal: Val{T: pv, Typ: types.NewInterfaceType(nil, nil)}, Pos: posOf(ins, f), Desc: "callee " + name + " has no panic specification"})
 			npc = vc.define("pc nopanic", "Bool", and(pc, not(mp)))
 		}
@@ -888,12 +898,48 @@ func (f *Frame) callFnValue(fv Val, sig *types.Signature, args []Val, pc string,
 	if len(cands) > 64 {
 		unsup("dynamic call in %s: %d candidates", shortFn(f.fn), len(cands))
 	}
+	// candidates whose contracts have identical text (a function-type contract instantiated per function)
+	// are handled by ONE modular call under the condition "the value is one of them"
+	groups := map[string][]*ssa.Function{}
+	var order []string
+	if !static {
+		for _, c := range cands {
+			k := vc.prog.contractSignature(c)
+			if k == "" {
+				k = "single:" + c.String()
+			}
+			if _, ok := groups[k]; !ok {
+				order = append(order, k)
+			}
+			groups[k] = append(groups[k], c)
+		}
+	}
 	var conds []string
 	var states []*State
 	var results []Val
 	var idConds []string
-	for _, c := range cands {
+	var work []*ssa.Function
+	grouped := map[*ssa.Function][]*ssa.Function{}
+	if static {
+		work = cands
+	} else {
+		for _, k := range order {
+			g := groups[k]
+			work = append(work, g[0])
+			if len(g) > 1 {
+				grouped[g[0]] = g
+			}
+		}
+	}
+	for _, c := range work {
 		ic := fmt.Sprintf("(= (fn_id %s) %d)", fv.T, vc.fnID(c))
+		if g, ok := grouped[c]; ok {
+			var ids []string
+			for _, m := range g {
+				ids = append(ids, fmt.Sprintf("(= (fn_id %s) %d)", fv.T, vc.fnID(m)))
+			}
+			ic = or(ids...)
+		}
 		idConds = append(idConds, ic)
 		bst := st.clone()
 		bpc := vc.define("pc disp", "Bool", and(pc, ic))
